@@ -19,7 +19,7 @@ PROPS["C08"] = dict(
          "of a 3-8 instruction straight-line program, with and without context switch, handler reti/retic, against an "
          "uninterrupted twin; (cntx/banke/bankr) cntx s;cntx r, banke f;banke f for all 64 f, the 15 bankr forms twice; hidden "
          "banks pre-loaded with random values and made visible on both twins by one further cntx s / cntx r / bankr / banke. "
-         "distinct_nontrivial = distinct (form, condition, taken?, cpc, return kind, page) / register / (line, handler, "
+         "One int-section program in three contains a single-instruction repeat (request at the rep boundary / inside the loop). distinct_nontrivial = distinct (form, condition, taken?, cpc, return kind, page) / register / (line, handler, "
          "reveal, cpc, interrupted instruction length) / (pair form, reveal) keys executed and compared",
     floors={Q: _c08_q, T: _c08_t},
     ready=True,
